@@ -188,6 +188,14 @@ pub fn explore(rep: &mut Report, tier: &str, _prop: &str, only: Option<Vec<usize
             if let Some((key, detail)) = r.violation {
                 rep.violation(Violation { key, features: vec!["token_sequence".into()], input: pipe::Input::single(r.text.clone()), ps: 0, detail, locator: json!({"space": "tokens", "tokens": s}) });
             }
+            // accept/reject must agree with the reference recogniser
+            if let Some(want) = crate::checks::recog::recognise(&s) {
+                rep.count(if want { "reference_recogniser_accepts" } else { "reference_recogniser_rejects" }, 1);
+                if want != r.accepted {
+                    let key = if r.accepted { "parser_accepts_what_the_grammar_rejects" } else { "parser_rejects_what_the_grammar_accepts" };
+                    rep.violation(Violation { key: key.into(), features: vec!["token_sequence".into()], input: pipe::Input::single(r.text.clone()), ps: 0, detail: format!("reference recogniser: {want}; parser: {}; error: {:?}", r.accepted, r.error), locator: json!({"space": "tokens", "tokens": s}) });
+                }
+            }
             // full product up to `full`; beyond that only viable sequences are extended
             if len < full || r.viable {
                 next.push(s);
